@@ -2,8 +2,10 @@
 # build the whole Coq development from files on disk (offline)
 set -e
 cd "$(dirname "$0")"
-export PYTHONPATH=/repo PYTHONHASHSEED=0
-/venv/bin/python tools/translate.py || true
+export AEGEAN_REPO="${AEGEAN_REPO:-/repo}"
+export PYTHONPATH="$AEGEAN_REPO" PYTHONHASHSEED=0
+/venv/bin/python tools/translate.py --repo "$AEGEAN_REPO" || true
+/venv/bin/python -c "import sys; sys.path.insert(0,'tools'); import vlib; vlib.write_coqproject()"
 cd coq
 coq_makefile -f _CoqProject -o Makefile
 timeout 3400 make -j16
